@@ -66,6 +66,7 @@ class Machine(object):
     self.seam_missing = []
     self.op_index = -1
     self.fresh_budget = plan.get("world", {}).get("fresh_restarts", 0)
+    self.fresh_ref_budget = 1       # reference fits in a brand-new interpreter, per run
     # every dataset of the plan exists before the first operation (bases before the
     # views into them): what the caller edits later is edited in all of them alike
     for k_ in sorted(plan.get("datasets", {}), key=lambda x: bool(plan["datasets"][x].get("view_of"))):
@@ -237,7 +238,7 @@ class Machine(object):
           h.store = shared            # two estimators read through the same callable object
           self.cov["stores_shared_between_handles"] += 1
         else:
-          h.store = world.PointStore(D.S, mixed=bool(D.desc.get("int_rows")))
+          h.store = world.PointStore(D.S, mixed=bool(D.desc.get("int_rows")), returns=D.desc.get("store_returns"))
           self.shared_stores.setdefault(op["pre_data"], h.store)
         h.pre = h.store
       params["preprocessor"] = h.pre
@@ -264,7 +265,7 @@ class Machine(object):
       elif op["pre"] == "list":
         new_pre = (D.S.tolist(), None)
       elif op["pre"] == "store":
-        st = world.PointStore(D.S, mixed=bool(D.desc.get("int_rows")))
+        st = world.PointStore(D.S, mixed=bool(D.desc.get("int_rows")), returns=D.desc.get("store_returns"))
         new_pre = (st, st)
       else:
         new_pre = (None, None)
@@ -565,6 +566,20 @@ class Machine(object):
     if via == "indices" and (h.pre is None or h.pre_data != op["data"]):
       via = "formed"
     pairs = idx.copy() if via == "indices" else D.S[idx]
+    if op.get("near_ties") and via == "formed" and m >= 4 and np.asarray(pairs).dtype.kind == "f":
+      pairs = np.array(pairs, copy=True)
+      y = np.array(y, copy=True)
+      rn = np_stream(op.get("seed", 0), "calib-near")
+      half = m // 2
+      sc = float(np.abs(D.S).max()) or 1.0
+      for j in range(half, m):
+        i = j - half
+        if rn.rand() < 0.5:
+          pairs[j] = pairs[i] + rn.randn(pairs.shape[-1]) * sc * rn.choice([1e-3, 0.1, 1.0])
+        else:
+          pairs[j] = pairs[i] * (1.0 + rn.randint(1, 4) * 2.0 ** -52)
+        y[j] = -y[i] if rn.rand() < 0.7 else y[i]
+      self.cov["calibration_sets_with_near_ties"] += 1
     return D, pairs, y, via
 
   def op_calibrate(self, op, ev, live):
@@ -654,6 +669,8 @@ class Machine(object):
           arg[r_, 2] = arg[r_, 0]
           arg[r_, 3] = arg[r_, 1] + float(near) * u
       if spec.get("grid"):
+        if spec.get("huge") and method not in ("predict", "decision_function"):
+          spec = dict(spec, huge=False)
         arg, info = _dyadic_probe(arg, D, t, spec)
         self._last_probe_info = info
         if spec.get("f32") and not spec.get("far"):
@@ -762,7 +779,12 @@ class Machine(object):
     bad = []
     for x in self.handouts:
       if x["what"] == "metric":
-        now = [x["obj"](u, v) for u, v in x["pts"]]
+        try:
+          now = [x["obj"](u, v) for u, v in x["pts"]]
+        except Exception as e:
+          # it answered for these very vectors when it was handed out
+          bad.append("metric_fun_now_raises_%s" % type(e).__name__)
+          continue
         if digest(now) != digest(x["vals"]):
           bad.append("metric_fun")
       else:
@@ -1041,7 +1063,16 @@ def _dyadic_probe(arg, D, t, spec):
     for i in range(m):
       off = np.round(rs.uniform(-1, 1, size=arg.shape[-1]) * 2.0 ** int(far)) * step
       arg[i] = arg[i] + off          # the same offset for every point of the tuple
-  return arg, dict(ties=ties, far=int(far or 0), step=step)
+  huge_row = None
+  if spec.get("huge") and m >= 2 and not far:
+    # one tuple of the batch has a finite but astronomically long compared pair (its squared
+    # learned distance overflows); what the call answers for the *other* tuples of the same
+    # batch must not depend on that
+    huge_row = m - 1
+    u = np.sign(rs.randn(arg.shape[-1])) * 2.0 ** 700
+    arg[huge_row, -1] = arg[huge_row, -1] + u       # b (pairs), c (triplets), d (quadruplets)
+    ties = [i for i in ties if i != huge_row and not (t == 2 and i + 1 == huge_row)]
+  return arg, dict(ties=ties, far=int(far or 0), step=step, huge_row=huge_row)
 
 
 class ProbeOuts(list):
